@@ -162,8 +162,8 @@ func firstLine(s string) string {
 	if i := strings.IndexByte(s, '\n'); i >= 0 {
 		s = s[:i]
 	}
-	if len(s) > 300 {
-		s = s[:300]
+	if len(s) > 2000 { // longer than any generated template name plus the message around it
+		s = s[:2000]
 	}
 	return s
 }
@@ -190,8 +190,8 @@ func (e *Eng) Render(ctx context.Context, name string, data interface{}) (res Re
 	rd, err := e.E.Render(ctx, name, data)
 	if err != nil {
 		msg := firstLine(err.Error())
-		if strings.HasPrefix(msg, "Template ") && strings.HasSuffix(msg, " not found!") {
-			return Result{Class: "notfound", Msg: msg}
+		if full := err.Error(); strings.HasPrefix(full, "Template ") && strings.HasSuffix(full, " not found!") {
+			return Result{Class: "notfound", Msg: msg} // classified on the whole message: firstLine cuts long names
 		}
 		return Result{Class: "error", Msg: msg}
 	}
@@ -200,6 +200,33 @@ func (e *Eng) Render(ctx context.Context, name string, data interface{}) (res Re
 	return Result{Class: "ok", Out: b.String()}
 }
 
+// RenderBeforeRead renders `name`, then - BEFORE the result is read - renders the template `other` and reads that; only then is
+// the first result read. A result must not depend on when its reader is consumed (RenderPartials and every concurrent request
+// hold several results at a time).
+func (e *Eng) RenderBeforeRead(ctx context.Context, name string, data interface{}, other string) (res Result) {
+	defer func() {
+		if r := recover(); r != nil {
+			res = classifyPanic(r)
+		}
+	}()
+	rd, err := e.E.Render(ctx, name, data)
+	if err != nil {
+		msg := firstLine(err.Error())
+		if full := err.Error(); strings.HasPrefix(full, "Template ") && strings.HasSuffix(full, " not found!") {
+			return Result{Class: "notfound", Msg: msg}
+		}
+		return Result{Class: "error", Msg: msg}
+	}
+	if o := e.Render(ctx, other, map[string]interface{}{}); o.Class != "ok" || o.Out != otherText {
+		return Result{Class: "harness-error", Msg: "the neighbour template rendered as " + o.Class + " " + o.Out + " " + o.Msg}
+	}
+	var b bytes.Buffer
+	io.Copy(&b, rd)
+	return Result{Class: "ok", Out: b.String()}
+}
+
+const otherName, otherText = "zz0other", "~"
+
 // renderOne: one template "t" (plus optional extra files), explicit load then render.
 func renderOne(ast string, data interface{}, debug bool, extra map[string]flamingo.TemplateFunc) Result {
 	return renderAmong(map[string]string{"t": ast}, data, debug, extra)
@@ -207,7 +234,16 @@ func renderOne(ast string, data interface{}, debug bool, extra map[string]flamin
 
 // renderAmong: template "t" is rendered on an engine that holds the given files (t and its neighbours in the same directory)
 func renderAmong(files map[string]string, data interface{}, debug bool, extra map[string]flamingo.TemplateFunc) Result {
-	eng, err := newEngine(EngineSpec{Files: files, Debug: debug, Extra: extra})
+	return renderAmongM(files, data, debug, extra, "")
+}
+
+// renderAmongM: the same with an asset manifest next to the templates (and the module's asset() function registered)
+func renderAmongM(files map[string]string, data interface{}, debug bool, extra map[string]flamingo.TemplateFunc, manifest string) Result {
+	withOther := map[string]string{otherName: docOf(textNode(otherText))}
+	for k, v := range files {
+		withOther[k] = v
+	}
+	eng, err := newEngine(EngineSpec{Files: withOther, Debug: debug, Extra: extra, Manifest: manifest})
 	if err != nil {
 		return Result{Class: "harness-error", Msg: err.Error()}
 	}
@@ -216,7 +252,7 @@ func renderAmong(files map[string]string, data interface{}, debug bool, extra ma
 		if r := eng.Load(""); r.Class != "ok" {
 			return r
 		}
-		return eng.Render(context.Background(), "t", data)
+		return eng.RenderBeforeRead(context.Background(), "t", data, otherName)
 	}
 	// debug mode loads inside Render
 	var res Result
@@ -226,7 +262,7 @@ func renderAmong(files map[string]string, data interface{}, debug bool, extra ma
 				res = classifyPanic(r)
 			}
 		}()
-		res = eng.Render(context.Background(), "t", data)
+		res = eng.RenderBeforeRead(context.Background(), "t", data, otherName)
 	}()
 	return res
 }
